@@ -160,11 +160,8 @@ func (s xstate) step(l xletter) []xbranch {
 			// portals may or may not survive the end of the cycle (not asserted)
 			return forkPortalsDropped(out)
 		case "query":
-			// how a simple Query is treated while skipping is not asserted
-			r, cbs := simpleReply(l.A)
-			n := s
-			n.skip = false
-			return []xbranch{{reply: "", next: s}, {reply: r, cbs: cbs, next: s, label: "query-while-skipping-served"}, {reply: r, cbs: cbs, next: n, label: "query-while-skipping-ends-skip"}}
+			// "messages up to the next Sync are discarded without invoking callbacks": a simple Query is such a message
+			return []xbranch{{reply: "", next: s}}
 		case "oversized", "unknown":
 			n := s
 			n.skip = false
